@@ -336,6 +336,33 @@ NOT_YET = {
 ALL = ["C%02d" % i for i in range(1, 21)]
 
 
+# whole-conversion statements added later (Model/Convert.convertDoc is the function the driver serializes for the byte-level
+# end-to-end correspondence); appended to the texts above
+EXTRA = {
+    "C01": " whole_conversion_returns: Model/Convert.convertDoc returns a document for every text, environment, settings value and "
+           "catalogue. arcs_without_centre_in_the_tables: exactly one arc of the regenerated tables (the glyph U+2939) has a chord "
+           "longer than its diameter (NaN centre in the implementation, consumed by f32 == only).",
+    "C02": " whole_conversion_is_well_formed: the document convertDoc returns serializes, compact or indented, to one well-formed element.",
+    "C03": " every_cell_stroke_lives_on_in_one_fragment: each cell fragment is carried by one merged fragment of its scope whose span "
+           "holds the cell. signal_levels_are_the_sources: the signal intensities and the levels of the three overlap predicates are "
+           "regenerated from property.rs.",
+    "C07": " fragment_ranks_are_the_sources: the tie-break of the per-cell fragment order (Fragment::rank) is regenerated from fragment.rs.",
+    "C09": " no_emitted_group_has_collinear_touching_lines: every group of the whole endorsement stage (every <g>) is a contact group "
+           "of one span, so it holds no two plain lines that are collinear and touching.",
+    "C11": " whole_conversion_scales: convertDoc at scale (n*a)/(d*b) is convertDoc at n/d with every scaled number multiplied by a "
+           "(denominator by b), for every text.",
+    "C14": " signal_levels_are_the_sources: the signal intensities the table conditions compare are regenerated from property.rs.",
+    "C15": " quoted_texts_are_only_appended: the endorsement stage with quoted texts is the stage of the cells alone plus one verbatim "
+           "text fragment per quoted text appended to the top-level fragments.",
+    "C16": " whole_conversion_of_a_drawing_with_a_legend: convertDoc (body ++ legend text of entries es) is the conversion of the body "
+           "alone with exactly es, in order, as the legend rules (body without '#', well-formed entries).",
+    "C17": " whole_conversion_ignores_crlf, whole_conversion_ignores_trailing_line_feeds: for a legend-free document without stray "
+           "carriage returns convertDoc gives the same document under CRLF and with any number of line feeds appended.",
+    "C18": " whole_conversion_layout: the children of the root convertDoc returns are style?, defs?, backdrop?, then a geometry shared "
+           "by every configuration with the same scale.",
+}
+
+
 def main():
     checks = []
     for pid in ALL:
@@ -348,7 +375,7 @@ def main():
                 "evidence_file": "evidence/%s.json" % pid,
                 "replay_cmd_template": "./check %s --replay {path}" % pid,
                 "engine": "lean-model",
-                "level_claimed": {"category": "proof", "text": c["text"], "design_ref": c["design_ref"]},
+                "level_claimed": {"category": "proof", "text": c["text"] + EXTRA.get(pid, ""), "design_ref": c["design_ref"]},
                 "level_note": c["note"],
                 "technique": c["technique"],
             })
@@ -364,7 +391,7 @@ def main():
             "guard": "cargo feature `verif` of crate svgbob",
             "enable": "the harness crate /verif/harness depends on /repo/crates/svgbob with features=[\"verif\"]",
             "baseline_off_cmd": "cd /repo && cargo test --workspace --no-fail-fast --offline",
-            "source_commits": ["f5ea29f"],
+            "source_commits": ["f5ea29f", "9dc2870"],
             "add_only": True,
         },
         "engines": [{
